@@ -77,3 +77,45 @@ async fn well_formed_messages_never_stop_the_routing_thread() {
         if r.is_err() { witness(format!("the routing thread's message handler panicked on {} — the routing thread is gone", what)); }
     }
 }
+
+/// C01 (the exemption every block-level clause makes for blocks whose parent is a ghost block): a node that validates
+/// transactions never follows a chain a peer merely describes by hashes — after a GhostChain message from a peer (one that
+/// has not even completed the handshake) a full node holds no ghost block and its tip and by-height index are where they were
+#[tokio::test]
+#[serial_test::serial]
+async fn ghost_chain_from_a_peer_is_not_followed_by_a_full_node() {
+    use crate::core::util::test::node_tester::test::NodeTester;
+    use crate::core::io::network_event::NetworkEvent;
+    use crate::core::process::process_event::ProcessEvent;
+    use crate::core::consensus::block::BlockType;
+    use crate::core::msg::ghost_chain_sync::GhostChainSync;
+    use crate::core::defs::NOLAN_PER_SAITO;
+    use crate::core::util::crypto::hash;
+    NodeTester::delete_data().await.unwrap();
+    let mut tester = NodeTester::new(100, None, None);
+    tester.init_with_staking(0, 60, 100_000 * NOLAN_PER_SAITO).await.unwrap();
+    tester.wait_till_block_id_with_txs(3, 0, 0).await.unwrap();
+    { let configs = tester.routing_thread.config_lock.read().await; assert!(!configs.is_spv_mode() && !configs.is_browser(), "harness: a full node"); }
+    let (tip_id, tip_hash, tip_ts) = { let bc = tester.routing_thread.blockchain_lock.read().await; let b = bc.get_latest_block().unwrap(); (b.id, b.hash, b.timestamp) };
+    let peer_index = 7;
+    tester.routing_thread.process_network_event(NetworkEvent::PeerConnectionResult { result: Ok((peer_index, None)) }).await;
+    let mut rng = Rng::from_env();
+    for n_blocks in 1..=3usize {
+        let mut prehashes = vec![]; let mut prevs = vec![]; let mut ids = vec![]; let mut ts = vec![];
+        let mut prev = tip_hash;
+        for k in 0..n_blocks {
+            let pre: [u8; 32] = rng.arr();
+            prehashes.push(pre); prevs.push(prev); ids.push(tip_id + 1 + k as u64); ts.push(tip_ts + 1000 * (k as u64 + 1));
+            prev = hash(&[prev.as_slice(), pre.as_slice()].concat());
+        }
+        let chain = GhostChainSync { start: tip_hash, prehashes, previous_block_hashes: prevs, block_ids: ids, block_ts: ts, txs: vec![false; n_blocks], gts: vec![true; n_blocks] };
+        tester.routing_thread.process_network_event(NetworkEvent::IncomingNetworkMessage { peer_index, buffer: Message::GhostChain(chain).serialize() }).await;
+        let bc = tester.routing_thread.blockchain_lock.read().await;
+        let ghosts = bc.blocks.values().filter(|b| matches!(b.block_type, BlockType::Ghost)).count();
+        let index_above = (1..=n_blocks as u64).filter(|k| bc.blockring.get_longest_chain_block_hash_at_block_id(tip_id + k).is_some()).count();
+        if ghosts > 0 || index_above > 0 || bc.get_latest_block_hash() != tip_hash {
+            witness(format!("a full node with tip {} received one GhostChain message describing {} made-up block(s) on its tip from a peer that never completed the handshake: it now stores {} ghost block(s), its by-height index has {} entr(ies) above the tip, reported tip id {} — a block built on a ghost block is accepted without its transactions being checked",
+                tip_id, n_blocks, ghosts, index_above, bc.get_latest_block_id()));
+        }
+    }
+}
